@@ -55,7 +55,7 @@ Theorem handshake_answer_covers_every_property d dn :
   Driver.Props.quiet d -> NoDup (map (fun gv => v_name (snd gv)) (all_vecs d)) ->
   from_client d (getprops dn None) =
   (d, map (fun gv => Publish (def_msg d (fst gv) (snd gv))) (all_vecs d)).
-Proof. exact (getprops_all d dn). Qed.
+Proof. exact (Driver.Props.getprops_all d dn). Qed.
 Print Assumptions handshake_answer_covers_every_property.
 
 (* no message touches the entry of another property or another device *)
